@@ -120,7 +120,7 @@ def minimise(spec, case, div, mask, cache, max_evals=MAX_EVALS, max_wall=MAX_WAL
                 if _shape(a) != _shape(b):
                     continue
                 for va, vb in zip(_structural_variants(a), _structural_variants(b)):
-                    if va[0] in ("var", "str", "ref") or vb[0] in ("var", "str", "ref"):
+                    if va[0] in ("var", "str", "subvar", "ref") or vb[0] in ("var", "str", "subvar", "ref"):
                         continue
                     cand = list(ops)
                     cand[news[i]] = dict(ops[news[i]], recipe=va)
@@ -172,6 +172,8 @@ def _recipe_variants(r):
         for i in range(len(ch)):
             yield R.with_children(r, ch[:i] + ch[i + 1:])
     # simplify attributes
+    if t == "subvar":
+        yield ["var", r[1], r[2], r[3]]
     if t == "var" and (r[2], r[3]) != (0, 1):
         yield ["var", r[1], 0, 1]
     if t == "var" and (r[2], r[3]) == (0, 1):
@@ -193,7 +195,7 @@ def _recipe_variants(r):
 def _op_variants(op):
     if op["op"] == "new":
         for v in _recipe_variants(op["recipe"]):
-            if v[0] in ("var", "str", "ref"):
+            if v[0] in ("var", "str", "subvar", "ref"):
                 continue   # a model handle must stay a compound proposition
             o = dict(op)
             o["recipe"] = v
